@@ -94,11 +94,11 @@ class World:
         world = self
         orig = scheduler.Cell._find_placements
 
-        def _capture(cell, queue, servers):
+        def _capture(cell, queue, *rest, **kw):
             world.queues.append([[a.name, (-1 if a.final_rank == scheduler._UNPLACED_RANK
                                            else int(a.final_rank)), bool(a.server)]
                                  for a in queue])
-            return orig(cell, queue, servers)
+            return orig(cell, queue, *rest, **kw)
         p = mock.patch.object(scheduler.Cell, '_find_placements', _capture)
         p.start()
         self._patches.append(p)
